@@ -21,6 +21,9 @@ def ob(id, props, unit, entry, enforce=None, mode="proved", **kw):
     d = dict(id=id, props=props if isinstance(props, list) else [props], unit=unit, entry=entry,
              enforce=enforce, mode=mode)
     d.update(kw)
+    # a timeout only matters when the machine is loaded or something hangs: never below 400 s (quick) / 900 s (thorough), so that a
+    # busy machine turns a green run into a slower green run, not into an UNDECIDED (exit 2) one
+    d["timeout"] = max(d.get("timeout", 600), 900 if d.get("tier") == "thorough" else 400)
     OBS.append(d)
     return d
 
